@@ -374,17 +374,17 @@ __CPROVER_requires(xvu_g_len <= XVU_NAME_OBJ_MAX && __CPROVER_is_fresh(attr_name
                    xvu_str[1].base == attr_name && xvu_str[1].len == xvu_g_len && xvu_str[0].base == NULL && xvu_str[2].base == NULL)
 __CPROVER_requires((value_type == NULL || __CPROVER_is_fresh(value_type, sizeof(*value_type))) && value_capacity <= XVU_VAL_CAP_MAX && \
                    __CPROVER_is_fresh(attr_value, value_capacity == 0 ? 1 : value_capacity))
-__CPROVER_assigns(xv_errno, xv_blocked, XV_SEND_ASSIGNS, XV_RECV_ASSIGNS, xvu_rx, xvu_str[5])
+__CPROVER_assigns(xv_errno, xv_blocked, XV_SEND_ASSIGNS, XV_RECV_ASSIGNS, xvu_rx, xvu_tx_tracked, xvu_str[5])
 __CPROVER_assigns(value_type != NULL: *value_type)
 __CPROVER_assigns(value_capacity > 0: __CPROVER_object_upto(attr_value, value_capacity))
 __CPROVER_ensures(__CPROVER_return_value >= -1)
 /* PO[C14] xcmc_attr_get.long_name_refused: a name that does not fit attr_name[64] with its NUL is refused before anything is sent */
 __CPROVER_ensures(xvu_g_len >= XCM_ATTR_NAME_MAX ==> (__CPROVER_return_value == -1 && xv_errno == EOVERFLOW && xv_send_calls == __CPROVER_old(xv_send_calls) && xv_recv_calls == __CPROVER_old(xv_recv_calls)))
-/* PO[C14] xcmc_attr_get.one_request: otherwise exactly ONE full-size message goes out on the session's descriptor: type get_attr_req, the name with its NUL, zeros behind it */
-__CPROVER_ensures(xvu_g_len < XCM_ATTR_NAME_MAX ==> (XVU_SENT_ONE(session) && \
+/* PO[C14] xcmc_attr_get.one_request: otherwise exactly ONE full-size message goes out on the session's descriptor: type get_attr_req, the name with its NUL, zeros behind it in the name field */
+__CPROVER_ensures(xvu_g_len < XCM_ATTR_NAME_MAX ==> (XVU_SENT_ONE(session) && (XVU_IN(0, xv_j, XVU_TX_HDR) ==> xvu_tx_tracked) && \
                   (XVU_IN(0, xv_j, 4) ==> xv_send_c == 0) && \
                   (XVU_IN((long)XVU_OFF_NAME, xv_j, (long)(XVU_OFF_NAME + xvu_g_len)) ==> xv_send_c == (uint8_t)attr_name[xv_j - (long)XVU_OFF_NAME]) && \
-                  (XVU_IN((long)(XVU_OFF_NAME + xvu_g_len), xv_j, (long)XVU_MSG_SIZE) ==> xv_send_c == 0)))
+                  (XVU_IN((long)(XVU_OFF_NAME + xvu_g_len), xv_j, (long)(XVU_OFF_NAME + XCM_ATTR_NAME_MAX)) ==> xv_send_c == 0)))
 __CPROVER_ensures((xvu_g_len < XCM_ATTR_NAME_MAX && !XVU_SEND_OK) ==> (__CPROVER_return_value == -1 && xv_recv_calls == __CPROVER_old(xv_recv_calls)))
 /* PO[C14] xcmc_attr_get.reply_size_checked: one recv of at most one full message; anything but a full-size reply is a failure */
 __CPROVER_ensures((xvu_g_len < XCM_ATTR_NAME_MAX && XVU_SEND_OK) ==> (XVU_RECV_ONE(session) && (!xvu_rx.full ==> __CPROVER_return_value == -1)))
@@ -393,7 +393,7 @@ __CPROVER_ensures(__CPROVER_return_value >= 0 ==> ((size_t)__CPROVER_return_valu
 /* PO[C14] xcmc_attr_get.confirmation: a well-formed confirmation yields its length, type and value bytes */
 __CPROVER_ensures((xvu_g_len < XCM_ATTR_NAME_MAX && XVU_SEND_OK && XVU_CFM_OK(value_capacity)) ==> ((size_t)__CPROVER_return_value == xvu_rx.value_len && \
                   (value_type != NULL ==> (int)*value_type == xvu_rx.value_type) && \
-                  ((xv_j >= (long)XVU_OFF_VAL && (size_t)(xv_j - (long)XVU_OFF_VAL) == xv_mc && xv_mc < xvu_rx.value_len) ==> ((const uint8_t *)attr_value)[xv_mc] == xv_recv_c)))
+                  (xv_mc < xvu_rx.value_len ==> ((const uint8_t *)attr_value)[xv_mc] == xvu_rx.val_mc)))
 /* PO[C14] xcmc_attr_get.rejection_and_garbage: a rejection fails with the peer's errno; a confirmation that does not fit fails with EOVERFLOW; any other type is a protocol error */
 __CPROVER_ensures((xvu_g_len < XCM_ATTR_NAME_MAX && XVU_SEND_OK && xvu_rx.full && !XVU_CFM_OK(value_capacity)) ==> (__CPROVER_return_value == -1 && \
                   (xvu_rx.type == ctl_proto_type_get_attr_rej ? xv_errno == xvu_rx.rej_errno : \
@@ -412,11 +412,11 @@ __CPROVER_ensures(xvu_cb.calls == __CPROVER_old(xvu_cb.calls) + 1)
 #define XVU_ALL_OK (xvu_rx.full && xvu_rx.type == ctl_proto_type_get_all_attr_cfm && xvu_rx.attrs_len <= CTL_PROTO_MAX_ATTRS)
 int xcmc_attr_get_all(struct xcmc_session *session, xcmc_attr_cb cb, void *cb_data)
 __CPROVER_requires(XV_FD_GHOST_RANGE && __CPROVER_is_fresh(session, sizeof(*session)) && XVU_SESS_OK(session) && cb == xvu_attr_cb)
-__CPROVER_assigns(xv_errno, xv_blocked, XV_SEND_ASSIGNS, XV_RECV_ASSIGNS, xvu_rx, xvu_cb)
+__CPROVER_assigns(xv_errno, xv_blocked, XV_SEND_ASSIGNS, XV_RECV_ASSIGNS, xvu_rx, xvu_tx_tracked, xvu_cb)
 __CPROVER_ensures(__CPROVER_return_value == 0 || __CPROVER_return_value == -1)
 /* PO[C14] xcmc_attr_get_all.one_request: one full-size message of type get_all_attr_req, all zero behind the type */
-__CPROVER_ensures(XVU_SENT_ONE(session) && (xv_j == 0 ==> xv_send_c == ctl_proto_type_get_all_attr_req) && (XVU_IN(1, xv_j, 4) ==> xv_send_c == 0) && \
-                  (XVU_IN(8, xv_j, (long)XVU_MSG_SIZE) ==> xv_send_c == 0))
+__CPROVER_ensures(XVU_SENT_ONE(session) && (XVU_IN(0, xv_j, XVU_TX_HDR) ==> xvu_tx_tracked) && (xv_j == 0 ==> xv_send_c == ctl_proto_type_get_all_attr_req) && \
+                  (XVU_IN(1, xv_j, 4) ==> xv_send_c == 0) && (XVU_IN(8, xv_j, XVU_TX_HDR) ==> xv_send_c == 0))
 /* PO[C14] xcmc_attr_get_all.reply_checked: short replies, other types and attribute counts above the 64 entries of the message fail, without any callback */
 __CPROVER_ensures((!XVU_SEND_OK || !XVU_ALL_OK) ==> (__CPROVER_return_value == -1 && xvu_cb.calls == __CPROVER_old(xvu_cb.calls)))
 __CPROVER_ensures((XVU_SEND_OK && xvu_rx.full && !XVU_ALL_OK) ==> xv_errno == EPROTO)
